@@ -163,6 +163,9 @@ pub fn run(ctx: &Ctx) -> Rep {
         let mut rng = Rng::new(seed, 0xC11_0C00 + bi as u64);
         for a in 0..32u32 {
             for b in a..32u32 {
+                if ctx.smoke() && (b != a || a % 4 != 0 || bi % 3 != 0) {
+                    continue; // smoke: a thin slice (the interpreter is ~1000x slower)
+                }
                 let mask = (1u32 << a) | (1u32 << b);
                 let (x, y) = (base, base ^ mask);
                 for n in 2..=7usize {
